@@ -78,3 +78,14 @@ Example kconfig_nonvacuous :
   (let* cfg := bc_parse (ex_text [100]) in kconfig_assignments cfg) = Ok [([118], [99], 32); ([118], [100], 34)]
   /\ (let* cfg := bc_parse (ex_text [99]) in kconfig_assignments cfg) = Raise GeneratorError.
 Proof. vm_compute. split; reflexivity. Qed.
+
+(* F17 — configured names survive the configuration file: the reader's unescaping (regenerated: bc_unescape) undoes the escaping Kconfig
+   applies when it writes a string value (a backslash in front of every backslash and double quote), for EVERY name *)
+From Verif Require Cmd.KconfigEscape.
+Theorem configured_names_survive_the_file : forall name, bc_unescape (Cmd.KconfigEscape.kc_escape name) = name.
+Proof. exact Cmd.KconfigEscape.unescape_escape. Qed.
+Print Assumptions configured_names_survive_the_file.
+Example escaped_name_is_read_back :
+  Cmd.KconfigEscape.kc_escape [109; 121; 34; 99; 92; 120] = [109; 121; 92; 34; 99; 92; 92; 120] /\
+  bc_unescape [109; 121; 92; 34; 99; 92; 92; 120] = [109; 121; 34; 99; 92; 120].
+Proof. vm_compute. split; reflexivity. Qed.
